@@ -4,7 +4,9 @@ the OS (DESIGN §4 C12).
 Bit-flip injectivity over the window the *result* shows to be consumed, the
 salt-size clauses, and the OS-entropy path observed through the interposed
 arc4random_buf."""
+import json
 import os
+import subprocess
 
 from .. import build, common, decode, facts, gen, pool, rt
 from ..pool import Death, Timeout
@@ -204,6 +206,80 @@ def do_entropy(args):
     return acc
 
 
+def do_sizes(args):
+    """Buffers smaller than the documented size: a call that succeeds with less
+    room must still not return an empty or below-minimum salt."""
+    seed, ms = args
+    acc = common.Acc()
+    w = rt.vw(FL)
+    for m in ms:
+        fm = m or "yescrypt"
+        name = m or "NULL"
+        prefix = gen.TAG[m] if m else None
+        for nr in (16, 24, 64):
+            rb = facts.rbytes_pattern("rnd", nr, seed * 11 + nr)
+            lines = [rt.gensalt_line("rn", prefix, 0, rb, nr, osz) for osz in range(1, 192)]
+            rows = rt.run_resilient(w, [], lines)
+            for osz, r, ln in zip(range(1, 192), rows, lines):
+                acc.count("evaluations")
+                if isinstance(r, Death):
+                    rt.death_violation(acc, PID, r, FL, ln, "gensalt-size/" + name)
+                    continue
+                if not isinstance(r, dict) or r["r"] != "O" or fm == "nt":
+                    continue
+                g = rt.out_of(r)
+                d = salt_of(fm, g)
+                acc.count("small_buffer_successes")
+                acc.cls((name, "small-buffer-ok", nr))
+                L = len(d["salt"]) if d else 0
+                if d is None or L == 0 or L < facts.MIN_SALT_CHARS[fm]:
+                    acc.violation("%s/%s/%s" % (PID, "empty-salt" if not L else "salt-below-minimum", name),
+                                  "prefix=%s nrbytes=%d output_size=%d: succeeds with %r (salt of %d characters, minimum %d)" % (
+                                      name, nr, osz, g, L, facts.MIN_SALT_CHARS[fm]), rt.replay_obj(FL, [ln]))
+    return acc
+
+
+VRAND_WRAPS = "-Wl,--wrap=getentropy,--wrap=getrandom,--wrap=syscall,--wrap=open,--wrap=read,--wrap=close"
+
+
+def do_chain(args):
+    """The fallback chain of get_random_bytes in the configuration without
+    arc4random_buf: getentropy, getrandom, raw syscall, /dev/urandom, each
+    mocked to work, fail, deliver short, be interrupted or hit EOF (harness
+    vrand.c; one process per schedule)."""
+    seed, = args
+    acc = common.Acc()
+    tree = rt.TREE
+    obj = tree.variant_object(FL, "util-get-random-bytes.c", "noarc4", {"HAVE_ARC4RANDOM_BUF": None})
+    exe = tree.program(FL, "vrand.c", name="vrand", wrap=False, libs=VRAND_WRAPS,
+                       replace={"util-get-random-bytes.o": obj})
+    pres = ["-"] + [pool.hx(gen.TAG[m]) for m in salted_methods() if m not in ("descrypt",)]
+    cmd = [exe, str(seed)] + pres
+    env = dict(os.environ, ASAN_OPTIONS="detect_leaks=0:abort_on_error=0", UBSAN_OPTIONS="print_stacktrace=1")
+    try:
+        p = subprocess.run(cmd, stdout=subprocess.PIPE, stderr=subprocess.PIPE, text=True, env=env, timeout=1500)
+    except subprocess.TimeoutExpired:
+        acc.inconc("entropy-chain monitor timed out")
+        return acc
+    stat = None
+    for ln in p.stdout.splitlines():
+        if ln.startswith("VIOL "):
+            t = ln.split(" ", 2)
+            acc.violation("%s/entropy-chain/%s" % (PID, t[1]), t[2][:900], {"cmd": " ".join(cmd)})
+        elif ln.startswith("STAT "):
+            stat = json.loads(ln[5:])
+    if stat is None:
+        acc.violation(PID + "/entropy-chain/monitor-died", "rc=%s %s" % (p.returncode, (p.stderr or p.stdout)[-600:]),
+                      {"cmd": " ".join(cmd)})
+        return acc
+    acc.count("evaluations", stat["evaluations"])
+    for k, v in stat.items():
+        acc.count("chain/" + k, v)
+        if k.startswith("reached_") and v:
+            acc.cls(("entropy-chain", k))
+    return acc
+
+
 def run(tier):
     run_ = common.Run(PID, tier, "exploration")
     rt.prepare([FL])
@@ -213,6 +289,10 @@ def run(tier):
         run_.merge(acc)
     for acc in pool.pmap(do_entropy, [(run_.seed, conf)]):
         run_.merge(acc)
+    allm = facts.GENSALT_METHODS + [None]
+    for acc in pool.pmap(do_sizes, [(run_.seed, allm[i::8]) for i in range(8)]):
+        run_.merge(acc)
+    run_.merge(do_chain((run_.seed,)))
     a = run_.acc
     cov = {
         "rule": "case = (prefix incl. NULL, nrbytes 0..64 each (+ larger), byte pattern); the window of consumed "
@@ -224,6 +304,14 @@ def run(tier):
         "os_entropy_calls_with_known_bytes": int(a.n.get("os_bytes_determine_salt", 0)),
         "os_entropy_draws_unwrapped": int(a.n.get("os_draws", 0)),
         "flavour": FL + " + arc4random_buf interposition",
+        "successes_with_buffers_below_192": int(a.n.get("small_buffer_successes", 0)),
+        "entropy_chain": {k[6:]: int(v) for k, v in a.n.items() if k.startswith("chain/")},
+        "entropy_chain_rule": "util-get-random-bytes.c rebuilt without HAVE_ARC4RANDOM_BUF; schedules = product of "
+                              "{ok,fail} getentropy x {ok,fail,short} getrandom x same for the raw syscall x {ok,fail} "
+                              "open x {ok,fail,short,EINTR once,EOF} read x {all broken, all fine, same} for the "
+                              "following call x short lengths {1,5,16,255}; buffer lengths 1..256; on success every "
+                              "byte must come from a logged delivery; through crypt_gensalt_rn(prefix,0,NULL,0) the "
+                              "setting must equal the one the delivered bytes give explicitly",
     }
     return run_.finish(cov, assumptions=[
         "bytes a method does not encode are not judged (how many must be encoded is the size clause)",
